@@ -118,6 +118,13 @@ inductive Op where
   | mask (refseq : String) (start len : Int) (mr : MaskRep) (nogap noref : Bool)
   /-- `MaskOccurences`; `MaskUnique(refseq, maskreplace)` is `maskOcc refseq 1 maskreplace` -/
   | maskOcc (refseq : String) (maxOcc : Int) (mr : MaskRep)
+  /-- `RemoveCharacterSites(c, cutoff, ends, ignoreCase, ignoreGaps, ignoreNs, reverse)`, cutoff `num/den` -/
+  | rmCharSites (cs : List Byte) (num den : Nat) (ends ic ig iN rev : Bool)
+  /-- `RemoveMajorityCharacterSites(cutoff, ends, ignoreGaps, ignoreNs)` -/
+  | rmMajSites (num den : Nat) (ends ig iN : Bool)
+  /-- `Replace(old, new, regex = true)`: `ok` = the regular expression compiled; `seqs` = the value of
+  `r.ReplaceAllString(sequence, new)` for every row in order (regexp is external: computed by Go's regexp) -/
+  | replaceRe (ok : Bool) (seqs : List Seq)
 deriving Repr
 
 /-- the float threshold test of the cleaning functions: `cutoff = num/den` as `float64` -/
@@ -239,6 +246,21 @@ def stepOp (b : Bag) : Op → Bag × String
     match maskOccBag refseq maxOcc mr b with
     | none => (b, "PANIC")
     | some r => (r.1, if r.2 then "err" else "ok")
+  | .rmCharSites cs num den ends ic ig iN rev =>
+    if !b.isAlign then (b, "na") else
+    match removeCharSitesBag (cutoffTest num den) cs ends ic ig iN rev b with
+    | none => (b, "PANIC")
+    | some r => (r.1, sitesStatus r.2.first r.2.last r.2.kept r.2.removed)
+  | .rmMajSites num den ends ig iN =>
+    if !b.isAlign then (b, "na") else
+    -- `RemoveMajorityCharacterSites` does not reset a cutoff outside [0,1] (`cutoffTestRaw`)
+    match removeMajoritySitesBag (cutoffTestRaw num den) ends ig iN b with
+    | none => (b, "PANIC")
+    | some r => (r.1, sitesStatus r.2.first r.2.last r.2.kept r.2.removed)
+  | .replaceRe ok seqs =>
+    -- a regular expression that does not compile: an error, nothing touched
+    if !ok then (b, "err") else
+    let r := replaceRegexBag seqs b; (r.1, if r.2 then "err" else "ok")
 
 /-- run a history, collecting the states after every step -/
 def runOps : Bag → List Op → List (Bag × String)
